@@ -222,21 +222,22 @@ Section Script.
     destruct (starts_first ts rest Hs) as [Hns Hnf].
     cbn [statements_loop]. unfold bind at 1. rewrite (peek_at d s [] _ Ht0). unfold bind at 1.
     rewrite (skip_all_semis_run d s [] [] _ I Ht0 Hns). unfold bind at 1.
-    cbn [semis_toks length app Nat.add]. rewrite (peek_at d s [] _ Ht0). cbn [semis_toks app].
+    change (length (@nil twl) + length (semis_toks []))%nat with (length (@nil twl)).
+    rewrite (peek_at d s [] _ Ht0). cbn [semis_toks app].
     fold (first_tok (ts ++ rest)). rewrite (match_not_eof _ _ _ Hnf).
-    unfold first_tok in Hns. rewrite Hns. cbn [andb]. unfold bind at 1.
+    rewrite Hns. cbn [andb]. unfold bind at 1.
     rewrite (Hany [] rest s Ht).
     (* second iteration *)
-    cbn [length Nat.add]. unfold bind at 1.
+    change (length (@nil twl) + length ts)%nat with (length ts). unfold bind at 1.
     assert (Ht1 : toks s = ts ++ rest) by exact Ht.
     rewrite (peek_at d s ts _ Ht1). unfold bind at 1.
     unfold stmt_end in Hne. apply orb_false_iff in Hne as [Hn1 Hn2].
     assert (Ht2 : toks s = ts ++ semis_toks [] ++ rest) by exact Ht.
     rewrite (skip_all_semis_run d s [] ts _ I Ht2 Hn1). unfold bind at 1.
     cbn [semis_toks length]. rewrite Nat.add_0_r. rewrite (peek_at d s ts _ Ht1).
-    fold (first_tok rest). unfold first_tok in Hn1. rewrite Hn1.
+    fold (first_tok rest). rewrite Hn1.
     assert (Hnf2 : first_tok rest <> TEOF).
-    { unfold first_tok. intro E. rewrite E in Hn2. discriminate. }
+    { intro E. rewrite E in Hn2. discriminate. }
     rewrite (match_not_eof _ _ _ Hnf2). rewrite Hend. cbn [andb]. reflexivity.
   Qed.
 End Script.
